@@ -359,6 +359,21 @@ def check_naive_bayes(case, out):
     got = res[start] if isinstance(res, dict) else res
     if set(got) != want:
         out.fail("nb.active_trail_nodes:mismatch", f"dep={dep!r} feats={feats!r} start={start!r} Z={Z!r} got={got!r} want={want!r}")
+    # local independencies of a feature: independent of its non-descendants (the other features) given its parent
+    for f in feats[:3]:
+        others = set(feats) - {f}
+        li = out.call("nb.local_independencies", nb.local_independencies, f)
+        out.evals += 1
+        if li is RAISED:
+            continue
+        stmts = {(frozenset(a.event1), frozenset(a.event2), frozenset(a.event3)) for a in li.get_assertions()}
+        if not others:
+            if any(e2 for _, e2, _ in stmts):
+                out.fail("nb.local_independencies:statement_for_single_feature", f"dep={dep!r} feats={feats!r} var={f!r} got={sorted(map(str, li.get_assertions()))}")
+            continue
+        want_stmt = (frozenset([f]), frozenset(others), frozenset([dep]))
+        if stmts != {want_stmt}:
+            out.fail("nb.local_independencies:mismatch", f"dep={dep!r} feats={feats!r} var={f!r} got={sorted(map(str, li.get_assertions()))} want {f} _|_ {sorted(others)} | {dep}")
 
 
 SUBCHECKS = [
@@ -369,6 +384,6 @@ SUBCHECKS = [
     Sub("random_trails", check_random, strategy=lambda tier: random_case(), n={"quick": 150, "thorough": 1500},
         shards={"quick": 4, "thorough": 8}, doc="active_trail_nodes on random 6-9 node DAGs with latents"),
     Sub("naive_bayes", check_naive_bayes, strategy=lambda tier: nb_case(), n={"quick": 100, "thorough": 500},
-        shards={"quick": 1, "thorough": 2}, doc="NaiveBayes.active_trail_nodes vs the definition on the star graph"),
+        shards={"quick": 1, "thorough": 2}, doc="NaiveBayes.active_trail_nodes and local_independencies vs the definition on the star graph"),
 ]
 PREDICATES = {}
